@@ -108,10 +108,15 @@ def run(chk):
                 chk.violation("driver-failed:%s" % (case["mode"],), "the driver program fails on a healthy file system: rc=%s %s" % (ref["rc"], ref["err"][-300:]),
                               {"case": case}, found_input=True)
                 continue
+            # does ovniemu accept what this program leaves on a healthy file system? (a thread that never
+            # flushes leaves a stream without events, which the emulator refuses whatever the file handling does)
+            rfiles, rdirs = R.snapshot(os.path.join(cd, "ref"))
+            healthy_ok = R.recovered_trace_ok(build, os.path.join(cd, "ref"), case, rfiles, R.flushed_from_log(ref["log"])) == 0
+            chk.count("healthy-run-accepted:%s" % healthy_ok)
             variant, ords = None, None
             if oracle:
                 variant, ords, detail = C9.pick_variant(oracle, case, ref)
-                variants[variant] = variants.get(variant, 0) + 1
+                variants[str(variant)] = variants.get(str(variant), 0) + 1
                 chk.case(("T", C9.ckey(case)))
                 if variant is None:
                     corr_broken.append({"what": "call trace differs from the model", "case": case, "detail": detail})
@@ -122,14 +127,14 @@ def run(chk):
                 for f in faults_for(l, errnos):
                     jobs.append((l, f))
 
-            def inject(job, case=case, cd=cd, variant=variant, ords=ords, ref=ref):
+            def inject(job, case=case, cd=cd, variant=variant, ords=ords, ref=ref, healthy_ok=healthy_ok):
                 l, f = job
                 d = os.path.join(cd, "f%d_%s_%s" % (f["n"], f["name"], f.get("short", f["errno"])))
                 r = R.run_prog(tl, d, case, fault=f)
                 files, dirs = R.snapshot(d)
                 cls, bad = R.decide_c10(case, r, files)
                 rec = None
-                if cls == "returned" and not bad:
+                if cls == "returned" and not bad and healthy_ok:
                     rec = R.recovered_trace_ok(build, d, case, files, R.flushed_from_log(r["log"]))
                     if rec != 0:
                         bad.append(("invalid", 0, "the program returned normally but ovniemu rejects the streams it left (exit %s)" % (rec,)))
